@@ -1,6 +1,10 @@
 package main
 
-import "fmt"
+import (
+	"fmt"
+	"strconv"
+	"strings"
+)
 
 var deepP = []string{"p.parse.matches", "p.shrink.effective", "p.parse.ntl.truncated", "p.reset.data"}
 
@@ -75,6 +79,9 @@ func init() {
 			e := genPMidSA(r, id, cnt, emit)
 			return e.finds, true
 		}
+		if budgetScriptID(id) {
+			return genPSABudget("GSAP", r, id, cnt, emit).finds, true
+		}
 		return pgs(r, id, cnt, emit)
 	}
 	pt := profGeneral
@@ -145,5 +152,21 @@ func init() {
 	}
 	po := profGeneral.withKinds("OSAP")
 	po.ntlPct = 10
-	suites["p-osap"] = pSuite(po, []string{"osap.block.withmatches"})
+	pos := pSuite(po, []string{"osap.block.withmatches"})
+	suites["p-osap"] = func(r *rng, id string, cnt counters, emit func(line, out string)) ([]finding, bool) {
+		if budgetScriptID(id) {
+			return genPSABudget("OSAP", r, id, cnt, emit).finds, true
+		}
+		return pos(r, id, cnt, emit)
+	}
+}
+
+// budgetScriptID selects every fourth script of a shard (not the first) for genPSABudget.
+func budgetScriptID(id string) bool {
+	k := strings.LastIndex(id, ".")
+	if k < 0 {
+		return false
+	}
+	n, err := strconv.Atoi(id[k+1:])
+	return err == nil && n%4 == 1
 }
